@@ -3,14 +3,14 @@
    parsed and model-checked stand-alone.  Real checks generate this module from a puppet binary
    (tools/sesslib.py: Puppet.tla_data) into a work directory that shadows this file. *)
 X == <<
-  [pc |-> 100, d |-> 0, ln |-> 1, st |-> TRUE,  pe |-> FALSE, fn |-> 1, sk |-> 1, tk |-> 0, ext |-> FALSE],
-  [pc |-> 104, d |-> 0, ln |-> 2, st |-> TRUE,  pe |-> TRUE,  fn |-> 1, sk |-> 1, tk |-> 0, ext |-> FALSE],
-  [pc |-> 108, d |-> 0, ln |-> 2, st |-> FALSE, pe |-> TRUE,  fn |-> 1, sk |-> 1, tk |-> 1, ext |-> FALSE],
-  [pc |-> 200, d |-> 1, ln |-> 7, st |-> TRUE,  pe |-> FALSE, fn |-> 2, sk |-> 2, tk |-> 1, ext |-> FALSE],
-  [pc |-> 204, d |-> 1, ln |-> 8, st |-> TRUE,  pe |-> TRUE,  fn |-> 2, sk |-> 2, tk |-> 1, ext |-> FALSE],
-  [pc |-> 208, d |-> 1, ln |-> 8, st |-> FALSE, pe |-> TRUE,  fn |-> 2, sk |-> 2, tk |-> 2, ext |-> FALSE],
-  [pc |-> 112, d |-> 0, ln |-> 2, st |-> FALSE, pe |-> TRUE,  fn |-> 1, sk |-> 1, tk |-> 2, ext |-> FALSE],
-  [pc |-> 116, d |-> 0, ln |-> 3, st |-> TRUE,  pe |-> TRUE,  fn |-> 1, sk |-> 1, tk |-> 2, ext |-> FALSE]
+  [pc |-> 100, d |-> 0, ln |-> 1, st |-> TRUE,  pe |-> FALSE, fn |-> 1, sk |-> 1, tk |-> 0, ext |-> FALSE, co |-> 8],
+  [pc |-> 104, d |-> 0, ln |-> 2, st |-> TRUE,  pe |-> TRUE,  fn |-> 1, sk |-> 1, tk |-> 0, ext |-> FALSE, co |-> 8],
+  [pc |-> 108, d |-> 0, ln |-> 2, st |-> FALSE, pe |-> TRUE,  fn |-> 1, sk |-> 1, tk |-> 1, ext |-> FALSE, co |-> 8],
+  [pc |-> 200, d |-> 1, ln |-> 7, st |-> TRUE,  pe |-> FALSE, fn |-> 2, sk |-> 2, tk |-> 1, ext |-> FALSE, co |-> 8],
+  [pc |-> 204, d |-> 1, ln |-> 8, st |-> TRUE,  pe |-> TRUE,  fn |-> 2, sk |-> 2, tk |-> 1, ext |-> FALSE, co |-> 8],
+  [pc |-> 208, d |-> 1, ln |-> 8, st |-> FALSE, pe |-> TRUE,  fn |-> 2, sk |-> 2, tk |-> 2, ext |-> FALSE, co |-> 8],
+  [pc |-> 112, d |-> 0, ln |-> 2, st |-> FALSE, pe |-> TRUE,  fn |-> 1, sk |-> 1, tk |-> 2, ext |-> FALSE, co |-> 8],
+  [pc |-> 116, d |-> 0, ln |-> 3, st |-> TRUE,  pe |-> TRUE,  fn |-> 1, sk |-> 1, tk |-> 2, ext |-> FALSE, co |-> 8]
 >>
 Stacks == << <<>>, <<112>> >>
 BpCands == {104, 204, 116}
